@@ -54,6 +54,9 @@ def run(facts, rep, tier, ctx):
         d = o["key"].split("|")[2]
         if "parent" in d:
             rep.ob("R03.1", o["fn"], d, o["ok"], o["detail"], o["loc"])
+        if "remove_dir_all" in d or "only after the copy" in d:
+            # recursive removal must dispatch children by type and remove the directory last, else entries are orphaned
+            rep.ob("R03.2", o["fn"], d, o["ok"], o["detail"], o["loc"])
     # R03.3 publication
     from . import c16
     scratch3 = Report("z")
@@ -80,6 +83,8 @@ def run(facts, rep, tier, ctx):
     try:
         from . import c09
         c09.table_u(facts, rep, ws, rule="R03.5", only=("remove_dir", "create_dir", "create_file", "remove_file"))
+        from . import c10
+        c10.marker_rules(facts, rep, ws, prefix="R03.5m", only=("R10.1", "R10.3", "R10.5"))
     except ImportError:
         rep.note("overlay rules (C09) not available yet")
     rep.assume("removal of the root itself is excluded by the property")
